@@ -45,7 +45,7 @@ ASSUMPTIONS = {"C08": [
 EXPECTED_PROBES = {"C08": ["probe:all_recorded_trials_failed_no_tree", "pool:out_of_order", "fault:trial_exception", "fault:trial_badtrial", "probe:cancelled_inflight",
                            "probe:second_search", "probe:postproc", "probe:reference_compared", "fault:clock_jump",
                            "probe:early_stop", "pool:mode:process", "pool:mode:thread", "fault:trial_objective",
-                           "fault:poll_lag_batched_completions", "probe:simultaneous_completions", "probe:compressed_search", "probe:preemptive_task_switches", "pool:mode:thread-preemptive"]}
+                           "fault:poll_lag_batched_completions", "probe:simultaneous_completions", "probe:compressed_search", "probe:preemptive_task_switches", "pool:mode:thread-preemptive", "probe:on_trial_error_raise"]}
 
 
 def violation_class(v):
@@ -238,7 +238,7 @@ def gen_case(prop, seed, tier):
         "max_time": max_time,
         "optlib": optlib,
         "opt_seed": sw.randrange(2 ** 31),
-        "on_trial_error": sw.choice(["warn", "ignore"]),
+        "on_trial_error": sw.choice(["warn", "ignore", "raise"]),
         "max_training_steps": sw.choice([None, None, 3]),
         "pool": pool,
         "fault": {"seed": sw.randrange(2 ** 31), "rate": fault_rate,
@@ -248,6 +248,12 @@ def gen_case(prop, seed, tier):
         "searches": sw.choice([1, 1, 2]),
         "compressed": compressed,
     }
+    if case["on_trial_error"] == "raise":
+        # 'raise' re-raises ordinary trial errors by design; BadTrial must still only discard the trial.
+        # So the only faults injected under 'raise' are BadTrial ones (and none in the objective).
+        case["fault"]["kinds"] = ["badtrial"]
+        if case["minimize"] == "custom-faulty":
+            case["minimize"] = "custom"
     return case
 
 
@@ -447,6 +453,7 @@ def run_case(prop, case):
 
     tot = [0]
     pending_no_tree = []
+    pending_raise = []
 
     def after_search(opt, pool, si, res):
         recs = res["records"]
@@ -462,7 +469,10 @@ def run_case(prop, case):
         if res["raised"] is not None:
             e = res["raised"]
             no_tree = isinstance(e, KeyError) and e.args == ("tree",)
-            if not no_tree:
+            if not no_tree and case["on_trial_error"] == "raise" and not type(e).__name__ == "BadTrial":
+                # by design 'raise' re-raises a trial's own error: judged against the fault-free serial run below
+                pending_raise.append((si, e))
+            elif not no_tree:
                 V("search-raised", f"search #{si} raised {type(e).__name__}: {e}; trials executed={executed}, "
                   f"fault-injected={len(injected)}; trial errors: {res['warn'][:2]}",
                   error=type(e).__name__, trial_error=(res["warn"][0][:60] if res["warn"] else None))
@@ -559,6 +569,8 @@ def run_case(prop, case):
                 V("winner-breaks-slicing-target", f"size {st['size']} > target {case['post']['slicing_opts']['target_size']}")
 
 
+    if case["on_trial_error"] == "raise":
+        counters["probe:on_trial_error_raise"] += 1
     sim = _run_once(ctg, case, True, True, log, counters, faults, True, after_search=after_search)
     opt, pool = sim["opt"], sim["pool"]
     total_trials = tot[0]
@@ -573,6 +585,17 @@ def run_case(prop, case):
             counters["probe:simultaneous_completions"] += pool.stats["batched"]
         if pool.stats["out_of_order"]:
             faults["fault:completion_reordered"] += 1
+
+    if pending_raise and not violations:
+        si, e = pending_raise[0]
+        c2 = copy.deepcopy(case)
+        ref0 = _run_once(ctg, c2, False, False, log, C(), C(), False)
+        r0 = ref0["results"][min(si, len(ref0["results"]) - 1)]
+        if r0["raised"] is not None and type(r0["raised"]) is type(e):
+            counters["probe:own_trial_error_reraised_by_design"] += 1
+        else:
+            V("search-raised", f"search #{si} raised {type(e).__name__}: {e} under on_trial_error='raise' although the fault-free serial "
+              f"run does not (only BadTrial faults were injected, which must merely discard the trial)", error=type(e).__name__)
 
     # ---- a search that produced no tree: is the configuration itself broken? --
     if pending_no_tree and not violations:
